@@ -787,6 +787,16 @@ main(int argc, char *argv[])
     while (fgets(line, sizeof(line), stdin)) {
         if (sscanf(line, "%63s", cmd) != 1 || cmd[0] == '#')
             continue;
+        if (!strcmp(cmd, "if")) { /* if <n> <command...>: only when exactly n frames have been searched so far */
+            int skip = 0;
+            if (sscanf(line, "%*s %ld %n", &a, &skip) < 1 || skip == 0)
+                return 3;
+            if (scored[1] != a)
+                continue;
+            memmove(line, line + skip, strlen(line + skip) + 1);
+            if (sscanf(line, "%63s", cmd) != 1)
+                continue;
+        }
         if (!strcmp(cmd, "init")) {
             char *json;
             config_t *cfg;
